@@ -344,3 +344,11 @@ func vfRunGoroutines() { time.Sleep(2600 * time.Millisecond) }
 // vfSyncHook: like vfStallHook, counting synchronisation operations (atomics, lock acquisitions,
 // channel operations) of the code that runs after it instead of accesses to one region
 func vfSyncHook(cut int, f func()) { vfHookFn, vfHookSeen = f, 0 }
+
+func c12NewFile(w int) *os.File {
+	r, _, err := os.Pipe()
+	if err != nil {
+		panic(err)
+	}
+	return r
+}
